@@ -42,7 +42,7 @@ def main():
         return 2
     try:
         shutil.copy("/repo/src/pyhf/_version.py", wt / "src/pyhf/_version.py")
-        env = dict(os.environ, PYTHONPATH=str(wt / "src"), PYTHONDONTWRITEBYTECODE="1")
+        env = dict(os.environ, PYTHONPATH=str(wt / "src"), PYTHONDONTWRITEBYTECODE="1", OMP_NUM_THREADS="2", MKL_NUM_THREADS="2", OPENBLAS_NUM_THREADS="2", TF_NUM_INTRAOP_THREADS="2", TF_NUM_INTEROP_THREADS="2", XLA_FLAGS="--xla_cpu_multi_thread_eigen=false intra_op_parallelism_threads=2")
         res["head"] = sh(["git", "rev-parse", "--short", "HEAD"], wt).stdout.strip()
         d0 = sh([PY, str(demo)], wt, env, timeout=900)
         res["demo_clean_rc"] = d0.returncode
